@@ -128,6 +128,18 @@ func corrC13(outDir string, seed uint64, tier string, replay string) *report {
 				if !bytes.Equal(k2, c1) || !bytes.Equal(k3, c1) || !bytes.Equal(pwBuf, pwBefore) && len(changed) == 0 || !bytes.Equal(saltBuf, saltBefore) {
 					rep.fail(map[string]interface{}{"scheme": v.name, "password_len": n}, "result shares no memory with arguments, package state or other results", "a later result or an argument changed when an earlier result was overwritten", "returned slice is aliased")
 				}
+				// every result handed out is the caller's to overwrite: scribble over the second and third ones as well
+				// (a result served from a memo would be the memo itself) and derive once more
+				for i := range k2 {
+					k2[i] ^= 0x5A
+				}
+				for i := range k3 {
+					k3[i] ^= 0xA5
+				}
+				if k5, _ := call(); !bytes.Equal(k5, c1) {
+					rep.fail(map[string]interface{}{"scheme": v.name, "password_len": n, "history": "the same call four times; the first three results were overwritten by the caller"}, fmt.Sprintf("%x", c1), fmt.Sprintf("%x", k5),
+						"a result is served from memory that an earlier result still shares (overwriting a returned key changes a later one)")
+				}
 				// full capacity of the result must not overlap the arguments either: write into spare capacity of the result
 				if cap(k1) > len(k1) {
 					ext := k1[:cap(k1)]
